@@ -282,15 +282,16 @@ def access (orig : List Nat) (l : List (EditM.P Nat)) (n : NodeRange) : Outcome 
 /-! ## `do_tokenize`: the stages in their order -/
 
 /-- `rewrite_input`: every plugin sees the current text and its edits are committed at once
-(`with_editor` → `commit`, length limit 65535 checked after every edit) -/
-def rewriteInput : List (List Nat → Outcome (List (EditM.Edit Nat))) → List (EditM.P Nat) →
+(`with_editor` → `commit`; `lv` = which length guard the tree has: `running` = limit 65535 checked after every
+edit of the batch (the pinned code), `final` = checked on the length of the rewritten text (the repair)) -/
+def rewriteInput (lv : EditM.LenV) : List (List Nat → Outcome (List (EditM.Edit Nat))) → List (EditM.P Nat) →
     Outcome (List (EditM.P Nat))
   | [], l => .ok l
   | p :: ps, l =>
     match p (EditM.textOf l) with
-    | .ok es => (match EditM.commit l es with
+    | .ok es => (match EditM.commitV lv l es with
       | none => .err "TooLong"
-      | some l' => rewriteInput ps l')
+      | some l' => rewriteInput lv ps l')
     | .err k => .err k
     | .panic w => .panic w
 
@@ -314,12 +315,14 @@ structure Result where
   tables : List (EditM.P Nat)
   morphs : List NodeRange
 
-/-- `StatefulTokenizer::do_tokenize`; `v` = which `NodeSplitIterator::next` the tree has -/
-def tokenize (v : SplitV) (cfg : Cfg) (orig : List Nat) : Outcome Result :=
+/-- `StatefulTokenizer::do_tokenize`; `v` = which `NodeSplitIterator::next` the tree has, `lv` = which length
+guard `resolve_edits`/`commit` has (which `RegexOovProvider::provide_oov` it has is the field `skipEmpty` of the
+provider's `Oov.RegexCfg`) -/
+def tokenize (v : SplitV) (lv : EditM.LenV) (cfg : Cfg) (orig : List Nat) : Outcome Result :=
   match EditM.startBuild orig with
   | none => .err "TooLong"
   | some l0 =>
-    match rewriteInput cfg.inputPlugins l0 with
+    match rewriteInput lv cfg.inputPlugins l0 with
     | .err k => .err k
     | .panic w => .panic w
     | .ok l =>
@@ -457,14 +460,21 @@ def parseBatchesR (s : List Char) : Option (List (List (EditM.Edit Nat))) :=
   Wire.allSome ((Wire.items ';' s).map (fun b =>
     if b = ['-'] then some [] else Wire.allSome ((Wire.items ',' b).map parseEditR)))
 
-def commitCount : List (EditM.P Nat) → List (List (EditM.Edit Nat)) → Nat → Option (List (EditM.P Nat)) × Nat
-  | l, [], k => (some l, k)
-  | l, es :: rest, k => match EditM.commit l es with
-    | none => (none, k)
-    | some l' => commitCount l' rest (k + 1)
+/-- the batches in order; a rejected batch stops the run: (`false`, its index, the buffer as it was before it —
+`commit` swaps the buffers only after the length check and `resolve_edits` consumes the pending edits on every exit) -/
+def commitCount (lv : EditM.LenV) : List (EditM.P Nat) → List (List (EditM.Edit Nat)) → Nat → Bool × Nat × List (EditM.P Nat)
+  | l, [], k => (true, k, l)
+  | l, es :: rest, k => match EditM.commitV lv l es with
+    | none => (false, k, l)
+    | some l' => commitCount lv l' rest (k + 1)
 
-/-- `C03 limits orig=<bytes> batches=<s/e/bytes,…;…>`: `start_build` and the `commit`s at the length limits.
-answer: `ok len=<bytes> m2o=<entries> last=<m2o[len]> cks=<checksum of m2o>` | `err:TooLong at=<start|batch k>` -/
+def m2oCks (m : List Nat) : Nat := m.foldl (fun s v => (s * 31 + v) % 1000000007) 0
+
+/-- `C03 limits orig=<bytes> batches=<s/e/bytes,…;…> commit=<running|final>`: `start_build` and the `commit`s at
+the length limits (`commit` = which length guard the linked tree has, probed by the harness; absent = `running`).
+answer: `ok len=<bytes> m2o=<entries> last=<m2o[len]> cks=<checksum of m2o>` | `err:TooLong at=start` |
+`err:TooLong at=<batch k> after=ok:<bytes>:<entries>:<cks>` (the state a following editor call without edits sees:
+unchanged) -/
 def handleLimits (toks : List (List Char)) : String :=
   match Wire.kv? toks "orig", Wire.kv? toks "batches" with
   | some o, some b =>
@@ -473,13 +483,15 @@ def handleLimits (toks : List (List Char)) : String :=
       match EditM.startBuild orig with
       | none => "err:TooLong at=start"
       | some l0 =>
-        match commitCount l0 batches 0 with
-        | (none, k) => "err:TooLong at=" ++ toString k
-        | (some l, _) =>
+        match commitCount (EditM.lenVOf toks) l0 batches 0 with
+        | (false, k, l) =>
           let m := EditM.snds l
-          let cks := m.foldl (fun s v => (s * 31 + v) % 1000000007) 0
+          "err:TooLong at=" ++ toString k ++ " after=ok:" ++ toString (EditM.textOf l).length ++ ":" ++ toString m.length ++
+            ":" ++ toString (m2oCks m)
+        | (true, _, l) =>
+          let m := EditM.snds l
           "ok len=" ++ toString (EditM.textOf l).length ++ " m2o=" ++ toString m.length ++ " last=" ++
-            toString (m.getLast?.getD 0) ++ " cks=" ++ toString cks
+            toString (m.getLast?.getD 0) ++ " cks=" ++ toString (m2oCks m)
     | _, _ => "bad-op"
   | _, _ => "bad-op"
 
